@@ -142,3 +142,94 @@ Contract(target=f'{SIM}::Simulation.save_results', props=['C18'], name='Simulati
          # without safe_write only the exit state is promised
          ensures=['O == 3', 'result == results'],
          hooks={f'{SIM}::Simulation._save_to_file': _save_to_file_nobackup})
+
+
+# ---------------------------------------------------------------------------------------------
+# fix_output_filenames on a resume (loaded_from_checkpoint): must not destroy an existing complete file.
+def _path2(I, which):
+    p = _path(I, which)
+
+    def with_suffix(I_, suffix):
+        # get_backup_filename: output.with_suffix('.backup' + suffix) -> the backup path
+        return I_.ghost['paths']['B']
+
+    def open_(I_, mode='r'):
+        g = I_.ghost['__env__']
+        if 'w' in mode:
+            g[which] = z3.IntVal(1)        # truncated: the previous content is gone, what is written is not a results file
+            _crash_point(I_, f'{which}.open("w")')
+        h = SObj('GhostFile', None, {'write': Builtin(lambda I2, *a: None, 'file.write')})
+        h.attrs['__enter__'] = Builtin(lambda I2: h, '__enter__')
+        h.attrs['__exit__'] = Builtin(lambda I2, *a: None, '__exit__')
+        return h
+    p.attrs['with_suffix'] = Builtin(with_suffix, 'Path.with_suffix')
+    p.attrs['suffix'] = '.pkl'
+    p.attrs['open'] = Builtin(open_, 'Path.open')
+    return p
+
+
+def _setup_fix(I, env):
+    O, B = z3.Int('O'), z3.Int('B')
+    I.assume(z3.And(0 <= O, O <= 2, 0 <= B, B <= 2))
+    I.ghost['__env__'] = {'O': O, 'B': B}
+    I.ghost['had_complete'] = z3.Or(_complete(O), _complete(B))
+    I.ghost['safe_write'] = True
+    I.ghost['paths'] = {}
+    I.ghost['paths']['O'] = _path2(I, 'O')
+    I.ghost['paths']['B'] = _path2(I, 'B')
+    s = env['self']
+    ow = z3.Bool('overwrite_output')
+
+    def setdefault(I_, key, default=None):
+        return {'overwrite_output': ow, 'skip_if_output_exists': False, 'safe_write': True}.get(key, default)
+    s.attrs['options'] = SObj('OptionsDict', None, {'setdefault': Builtin(setdefault, 'options.setdefault')})
+    s.attrs['loaded_from_checkpoint'] = True
+
+
+def _replay_fix(m, ghost):
+    names = {0: 'absent', 1: 'partial', 2: 'complete'}
+    O, B = m.int('O'), m.int('B')
+    ow = m.bool('overwrite_output')
+
+    def run():
+        import pathlib
+        import pickle
+        import tempfile
+        import types
+        from tenpy.simulations.simulation import Simulation
+        with tempfile.TemporaryDirectory() as d:
+            out = pathlib.Path(d) / 'results.pkl'
+            bak = pathlib.Path(d) / 'results.backup.pkl'
+            good = pickle.dumps({'checkpoint': 'old'})
+            for p_, st in ((out, O), (bak, B)):
+                if st == 1:
+                    p_.write_bytes(good[:len(good) // 2])
+                elif st == 2:
+                    p_.write_bytes(good)
+
+            def complete(p_):
+                try:
+                    pickle.loads(p_.read_bytes())
+                    return True
+                except Exception:
+                    return False
+            stub = types.SimpleNamespace(options={'overwrite_output': ow, 'skip_if_output_exists': False, 'safe_write': True},
+                                         loaded_from_checkpoint=True, get_output_filename=lambda: str(out))
+            stub.get_backup_filename = lambda fn: Simulation.get_backup_filename(stub, fn)
+            before = (out.exists() and complete(out), bak.exists() and complete(bak))
+            Simulation.fix_output_filenames(stub)
+            after = (out.exists() and complete(out), bak.exists() and complete(bak))
+            ok = (not before[0] or after[0]) and (not before[1] or after[1])
+            return ok, (f'resume with output={names[O]}, backup={names[B]}: complete files (output, backup) before {before}, '
+                        f'after fix_output_filenames {after}')
+    return {'input': {'output_file': names[O], 'backup_file': names[B], 'overwrite_output': ow, 'loaded_from_checkpoint': True}, 'run': run}
+
+
+Contract(target=f'{SIM}::Simulation.fix_output_filenames', props=['C18'], name='Simulation.fix_output_filenames[resume]',
+         replay=_replay_fix,
+         params={'self': _SELF()},
+         setup=_setup_fix,
+         hooks={f'{SIM}::Simulation.get_output_filename': lambda I, f, args, kwargs: 'results.pkl',
+                'import:pathlib.Path': lambda I, name: I.ghost['paths']['O']},
+         # preparing the output files of a resumed run never destroys a complete results file, and does not touch the output
+         ensures=['O == old(O)', 'implies(old(B) == 2, B == 2)', 'implies(old(B) == 0, B == 1)', 'implies(old(B) != 0, B == old(B))'])
